@@ -774,7 +774,10 @@ def roll(a, shift, axis=None):
     if len(axis) != len(shift):
         raise ValueError("If 'shift' is a 1D sequence, 'axis' must have equal length.")
 
-    if not can_store(a.coords.dtype, max(a.shape + shift)):
+    if not all(
+        can_store(a.coords.dtype, int(sh)) and can_store(a.coords.dtype, a.shape[ax] + int(sh))
+        for sh, ax in zip(shift, axis, strict=True)
+    ):
         raise ValueError(
             f"cannot roll with coords.dtype {a.coords.dtype} and shift {shift}. Try casting coords to a larger dtype."
         )
